@@ -180,7 +180,7 @@ func C03(tier string) int {
 				tweak: func(a *ap.App) { a.OnFollow = beh }})
 		}
 	}
-	res.Rule = fmt.Sprintf("outbox inputs {bare Note, bare Article, Create with 1..%d objects, Like/Announce/Update/Add with an embedded object, Follow} x hidden-recipient option {none, bto IRI, bcc IRI, bto embedded actor, bto+bcc lists, bcc Mention by href, bto Link with id and decoy href, empty bto next to bcc} independently on the activity and on every embedded object x to {absent, IRI} x {client POST with both protocols, client POST social-only, Send with both, Send federating-only}; inbox Follow with each option under auto-accept / auto-reject; every input with hidden recipients again under 5 application-data variants (sender record without inbox / minimal, sender's or all recipients' inboxes stored by the application, hidden recipients unreachable); GET handler: stored values of every type that has 'object', bto/bcc at object depth 0..3, object given embedded / in a mixed list after an IRI / by IRI; %d delivery runs; oracle: every payload handed to the transport and every handler body is parsed and searched for bto/bcc", 2+map[bool]int{true: 1, false: 0}[res.Thorough()], len(cases))
+	res.Rule = fmt.Sprintf("outbox inputs {bare Note, bare Article, Create with 1..%d objects, Like/Announce/Update/Add with an embedded object, Follow} x hidden-recipient option {none, bto IRI, bcc IRI, bto embedded actor, bto+bcc lists, bcc Mention by href, bto Link with id and decoy href, empty bto next to bcc} independently on the activity and on every embedded object x to {absent, IRI} x {client POST with both protocols, client POST social-only, Send with both, Send federating-only}; inbox Follow with each option under auto-accept / auto-reject; every input with hidden recipients again under 5 application-data variants (sender record without inbox / minimal, sender's or all recipients' inboxes stored by the application, hidden recipients unreachable); GET handler: stored values of every type that has 'object', bto/bcc at object depth 0..3, object given embedded / in a mixed list after an IRI / by IRI / after a sibling that itself embeds two objects / as the third of three / before further siblings; %d delivery runs; oracle: every payload handed to the transport and every handler body is parsed and searched for bto/bcc", 2+map[bool]int{true: 1, false: 0}[res.Thorough()], len(cases))
 	var mu sync.Mutex
 	chunk := 300
 	parallel((len(cases)+chunk-1)/chunk, func(ci int) {
@@ -390,7 +390,10 @@ func C03(tier string) int {
 			continue
 		}
 		for depth := 0; depth <= 3; depth++ {
-			for _, lst := range []string{"embedded", "iri-then-embedded", "two-embedded", "iri"} {
+			for _, lst := range []string{"embedded", "iri-then-embedded", "two-embedded", "iri", "after-a-sibling-with-two-children", "three-embedded", "before-a-hidden-sibling"} {
+				if depth == 0 && len(lst) > len("iri-then-embedded") {
+					continue
+				}
 				for _, h := range hiddenOpts[1:] {
 					id := "https://l.example/n/served"
 					// build the chain from the innermost level outwards
@@ -411,6 +414,13 @@ func C03(tier string) int {
 							inner = L{RNote, d}
 						case "two-embedded":
 							inner = L{withKV(Emb("Note", "https://l.example/n/sib"), h.kv), d}
+						case "after-a-sibling-with-two-children":
+							sib := Emb("Create", "https://l.example/n/sib-parent", "object", L{withKV(Emb("Note", "https://l.example/n/sib-c1"), h.kv), withKV(Emb("Note", "https://l.example/n/sib-c2"), h.kv)})
+							inner = L{sib, d}
+						case "three-embedded":
+							inner = L{withKV(Emb("Note", "https://l.example/n/sib-a"), h.kv), withKV(Emb("Article", "https://l.example/n/sib-b"), h.kv), d}
+						case "before-a-hidden-sibling":
+							inner = L{d, withKV(Emb("Note", "https://l.example/n/sib-z"), h.kv), RNote}
 						case "iri":
 							inner = d
 							if lvl == depth {
